@@ -4,8 +4,8 @@ namespace Goloop.Driver.C15
 open Goloop Goloop.C15
 
 /-- universe of the line protocol: 0 god, 1..4 EOAs, 5,6 scripted accounts, 7 contract-typed
-    address without contract account, 8 treasury -/
-abbrev N : Nat := 9
+    address without contract account, 8 treasury, 9 deployed scripted contract (contract-typed) -/
+abbrev N : Nat := 10
 def godBal : Int := 1000000000000000000000
 def nKey : Nat := 2
 
@@ -42,6 +42,11 @@ where
           else if k = 'b' then (num s).map fun (a, s) => (Op.btp a, s)
           else if k = 't' then (num s).map fun (a, s) => (Op.burn a, s)
           else if k = 'f' then (num s).map fun (a, s) => (Op.fail a, s)
+          else if k = 'g' then do
+            let (a, s) ← num s
+            let s ← expect '=' s
+            let (b, s) ← num s
+            pure (Op.setg a b, s)
           else if k = 's' then do
             let (a, s) ← num s
             let s ← expect '=' s
@@ -87,12 +92,12 @@ structure St where
   txs : List (Tx N)
   depth : Nat     -- fuel: program nesting is bounded by the text length
 
-def St.init : St := ⟨none, ⟨fun a => if a.val = 0 then godBal else 0, fun _ _ => 0⟩, [], 0⟩
+def St.init : St := ⟨none, ⟨fun a => if a.val = 0 then godBal else 0, fun _ _ => 0, fun _ => none⟩, [], 0⟩
 
 def mkCfg (price dflt input call invoke legacy : Nat) : Cfg N :=
   { price, dflt, input, call, invoke,
     legacyFee := legacy % 2 = 1, legacyBal := legacy / 2 % 2 = 1,
-    isContract := fun a => a.val = 7, hasContract := fun _ => false,
+    isContract := fun a => a.val = 7 || a.val = 9, hasContract := fun a => a.val = 9,
     treasury := ⟨8, by decide⟩ }
 
 def showRec (r : Receipt) : String :=
@@ -102,14 +107,19 @@ def showRec (r : Receipt) : String :=
 def normWorld (w : World N) : World N :=
   let b := (Array.finRange N).map w.bal
   let s := (Array.finRange N).map fun a => (Array.range nKey).map (w.store a)
-  { bal := fun a => b[a.val]?.getD 0, store := fun a k => ((s[a.val]?.getD #[])[k]?).getD 0 }
+  let g := (Array.finRange N).map w.graph
+  { bal := fun a => b[a.val]?.getD 0, store := fun a k => ((s[a.val]?.getD #[])[k]?).getD 0,
+    graph := fun a => (g[a.val]?).join }
 
 def showWorld (w : World N) : String :=
   let bs := (List.finRange N).map fun a => toString (if a.val = 0 then w.bal a - godBal else w.bal a)
-  let ss := [4, 5, 6].flatMap fun a => match acct? a with
+  let ss := [4, 5, 6, 9].flatMap fun a => match acct? a with
     | some a => (List.range nKey).map fun k => toString (w.store a k)
     | none => []
-  ",".intercalate bs ++ "|" ++ ",".intercalate ss
+  let gs := match acct? 9 with
+    | some a => (match w.graph a with | some (nh, g) => s!"{nh}/{g}" | none => "-")
+    | none => "-"
+  ",".intercalate bs ++ "|" ++ ",".intercalate ss ++ "|" ++ gs
 
 def step (s : St) (toks : List String) : St × String :=
   match toks with
@@ -138,7 +148,7 @@ def step (s : St) (toks : List String) : St × String :=
           match nb.toNat?, parseWhole prog with
           | some nb, some ops =>
             -- {"method":"run","params":{"p":"<prog>"}}
-            if !(t.val = 4 || t.val = 5 || t.val = 6) || nb ≠ prog.length + 34 then (s, "bad-op")
+            if !(t.val = 4 || t.val = 5 || t.val = 6 || t.val = 9) || nb ≠ prog.length + 34 then (s, "bad-op")
             else ({ s with txs := s.txs ++ [⟨f, t, v, l, nb, .call ops⟩], depth := max s.depth prog.length }, "ok")
           | _, _ => (s, "bad-op")
         | _, _ => (s, "bad-op")
